@@ -61,7 +61,7 @@ func execBlockGlobal(f []string) string {
 		}
 	}
 	items.Sort()
-	items.Version = "verif"
+	items.Version = curVersion
 	if blockMod == nil {
 		blockMod = mod_block.VerifNew()
 	}
